@@ -28,6 +28,14 @@ def cases(tier, rng):
     n = 20000 if tier == 'quick' else 400000
     for _ in range(n):
         yield J('rr_confine', *conf(rng))
+    # the model's copy of Ellipse::contains (used by C18_rrect_half_eq_ellipse) vs the real Ellipse
+    for w in range(0, 21):
+        for h in range(0, 21):
+            yield J('rr_ellipse_map', -4, 3, w, h)
+    for _ in range(n // 4):
+        x, y, w, h = coord(rng, True), coord(rng, True), rng.randrange(0, 2000), rng.randrange(0, 2000)
+        yield J('rr_ellipse_pt', x, y, w, h, x + rng.randrange(-2, w + 3), y + rng.randrange(-2, h + 3))
+        yield J('rr_ellipse_map', rng.randrange(-50, 50), rng.randrange(-50, 50), rng.randrange(0, 45), rng.randrange(0, 45))
 
 
 def search(tier, rng):
